@@ -58,6 +58,11 @@ type c15Spec struct {
 	Initial   bool      `json:"initial"`    // handler starts with a token source
 	Refresh   bool      `json:"refresh"`    // RequestRefreshToken
 	TimeoutMs int       `json:"timeout_ms"` // context deadline of Authorize
+	// Redirect: the first request of this kind (prm | asm | dcr | token) is answered with a redirect (302 for GET,
+	// 307 for POST) to the same path on another host: over plain http ("http", which no request may ever follow) or
+	// over https ("https").
+	Redirect   string `json:"redirect,omitempty"`
+	RedirectTo string `json:"redirect_to,omitempty"`
 }
 
 var (
@@ -71,7 +76,9 @@ var (
 		"ep-script:authorization_endpoint", "ep-script:token_endpoint", "ep-script:jwks_uri", "ep-script:registration_endpoint", "ep-script:service_documentation",
 		"ep-script:op_policy_uri", "ep-script:op_tos_uri", "ep-script:revocation_endpoint", "ep-script:introspection_endpoint"}
 	c15ASMOk   = []string{"ok", "ok", "ok", "iss-slash", "ok-loopback-ep"}
-	c15Schemes = []string{"javascript:alert(1)//", "data:text/html,x//", "vbscript:msgbox//", "JavaScript:alert(1)//", "DATA:text/html,"}
+	// opaque forms, and authority forms whose host is a loopback address (a loopback host does not make a script URL safe)
+	c15Schemes = []string{"javascript:alert(1)//", "data:text/html,x//", "vbscript:msgbox//", "JavaScript:alert(1)//", "DATA:text/html,",
+		"javascript://127.0.0.1/%0Aalert(1)//", "data://[::1]/text/html,x//", "vbscript://localhost/msgbox//"}
 	c15Marker  = regexp.MustCompile(`q[pad][0-9]+q`)
 )
 
@@ -171,6 +178,9 @@ func genC15(r *vh.Rand, idx int) c15Spec {
 		// make sure the bound credentials come into play
 		s.Reg = r.Choose("prereg", "prereg+dcr")
 	}
+	if r.Chance(1, 6) {
+		s.Redirect, s.RedirectTo = r.Choose("prm", "asm", "asm", "dcr", "token", "token"), r.Choose("http", "http", "https")
+	}
 	return s
 }
 
@@ -213,6 +223,7 @@ type c15World struct {
 	c    *vh.Case
 	spec c15Spec
 	mu   sync.Mutex
+	redirected bool
 
 	serverURL   *url.URL
 	challengeRM string
@@ -240,6 +251,21 @@ func c15Loopback(host string) bool {
 	}
 	ip, err := netip.ParseAddr(h)
 	return err == nil && ip.IsLoopback()
+}
+
+// c15RequestKind classifies a request of the flow by its path.
+func c15RequestKind(p string, isChallengeRM bool) string {
+	switch {
+	case isChallengeRM || strings.HasPrefix(p, "/.well-known/oauth-protected-resource"):
+		return "prm"
+	case strings.Contains(p, "/.well-known/oauth-authorization-server") || strings.Contains(p, "/.well-known/openid-configuration"):
+		return "asm"
+	case strings.Contains(p, "/register"):
+		return "dcr"
+	case strings.Contains(p, "/token"):
+		return "token"
+	}
+	return ""
 }
 
 func c15SafeTarget(u *url.URL) bool {
@@ -392,6 +418,19 @@ func (w *c15World) RoundTrip(req *http.Request) (*http.Response, error) {
 	}
 	// I2
 	w.checkMarkers("request "+req.Method+" "+u.String(), u.String())
+	if kind := c15RequestKind(u.Path, w.challengeRM != "" && u.String() == w.challengeRM); kind != "" && kind == w.spec.Redirect && !w.redirected && !strings.HasPrefix(u.Host, "mirror.") {
+		w.redirected = true
+		to := *u
+		to.Scheme, to.Host = w.spec.RedirectTo, "mirror."+u.Hostname()
+		code := 302
+		if req.Method != "GET" {
+			code = 307
+		}
+		w.c.Seen("redirects-served", kind+"->"+w.spec.RedirectTo)
+		w.c.Log.Add("redirect", "kind", kind, "to", to.String())
+		w.mu.Unlock()
+		return &http.Response{StatusCode: code, Status: fmt.Sprintf("%d redirect", code), Header: http.Header{"Location": {to.String()}}, Body: http.NoBody, Request: req}, nil
+	}
 	res, fault := w.route(req, body)
 	w.mu.Unlock()
 	switch fault {
